@@ -437,3 +437,26 @@ func AtomicFieldCall(info *types.Info, e ast.Expr, pkg, typ, field, method strin
 	}
 	return call, true
 }
+
+// ConstObjOrVar returns the name of the package-level constant or variable e denotes (literal.NULL is a variable), "" otherwise.
+func ConstObjOrVar(info *types.Info, e ast.Expr) string {
+	var id *ast.Ident
+	switch x := ast.Unparen(e).(type) {
+	case *ast.Ident:
+		id = x
+	case *ast.SelectorExpr:
+		id = x.Sel
+	}
+	if id == nil {
+		return ""
+	}
+	switch o := info.Uses[id].(type) {
+	case *types.Const:
+		return o.Name()
+	case *types.Var:
+		if o.Parent() != nil && o.Pkg() != nil && o.Parent() == o.Pkg().Scope() {
+			return o.Name()
+		}
+	}
+	return ""
+}
